@@ -117,15 +117,17 @@ func builtinMathMax(call FunctionCall) Value {
 		return float64Value(call.ArgumentList[0].float64())
 	}
 	result := call.ArgumentList[0].float64()
-	if math.IsNaN(result) {
-		return NaNValue()
-	}
+	// ToNumber is applied to every argument, also after a NaN (ECMA 262 15.8.2.11/12).
+	nan := math.IsNaN(result)
 	for _, value := range call.ArgumentList[1:] {
 		value := value.float64()
 		if math.IsNaN(value) {
-			return NaNValue()
+			nan = true
 		}
 		result = math.Max(result, value)
+	}
+	if nan {
+		return NaNValue()
 	}
 	return float64Value(result)
 }
@@ -138,15 +140,17 @@ func builtinMathMin(call FunctionCall) Value {
 		return float64Value(call.ArgumentList[0].float64())
 	}
 	result := call.ArgumentList[0].float64()
-	if math.IsNaN(result) {
-		return NaNValue()
-	}
+	// ToNumber is applied to every argument, also after a NaN (ECMA 262 15.8.2.11/12).
+	nan := math.IsNaN(result)
 	for _, value := range call.ArgumentList[1:] {
 		value := value.float64()
 		if math.IsNaN(value) {
-			return NaNValue()
+			nan = true
 		}
 		result = math.Min(result, value)
+	}
+	if nan {
+		return NaNValue()
 	}
 	return float64Value(result)
 }
